@@ -159,8 +159,13 @@ def run_config(cfg, res):
       check_key(res, empty_target, key, dict(cell, dests=[], history=['nothing added yet']), set(), 0,
                 cfg['router'] + '/' + cfg['hash_type'] + '/empty')
     res.count('empty_set_lookups', 3)
-    for d in dests:
-      router.addDestination(d)
+    try:
+      for d in dests:
+        router.addDestination(d)
+    except Exception as e:
+      res.violation('%s/%s/addDestination-raised/%s' % (cfg['router'], cfg['hash_type'], type(e).__name__),
+                    'addDestination(%r) raised %r while configuring %r' % (d, e, dests), dict(cell=cell))
+      continue
     configured = set(dests)
     eligible = len(set(d[0] for d in dests)) if cell['diverse'] else len(dests)
     target = router.hash_router if aggregated else router
